@@ -398,6 +398,8 @@ fn enc_case(line: &str, tpl: &Templates) -> (String, Vec<(String, String)>) {
         }
     }
     if fs0 != "missing" && nsets > 0 { fails.push(("".into(), format!("{line}: a key was written to the keyring for an existing file"))); }
+    // a key that is in the keyring is created once and reused: no constructor call replaces or removes an existing entry
+    if key_of(kr0).is_some() && kr_after != key_of(kr0).map(|k| k.to_vec()) { fails.push(("".into(), format!("{line}: the keyring entry that existed before the call was replaced or removed (a database encrypted with it can no longer be opened)"))); }
     if ctor != "keyring" && kr_after != key_of(kr0).map(|k| k.to_vec()) { fails.push(("".into(), format!("{line}: constructor without keyring changed the keyring entry"))); }
     if verdict == "ok" {
         if mode != "600" { fails.push(("".into(), format!("{line}: database file mode {mode} after a successful open"))); }
